@@ -875,11 +875,13 @@ class Channel(typing.ContextManager):
         else:
             prompt = _convert_search_string(prompt_in)
 
-            # If the prompt is a pattern, we need to recompile it with an additional $ in the
-            # end to ensure that it only matches the end of the stream
+            # If the prompt is a pattern, we need to recompile it anchored to the
+            # end to ensure that it only matches the end of the stream.  The group
+            # makes the anchor apply to the whole pattern (not just to its last
+            # alternative) and \Z, unlike $, does not match before a trailing newline.
             if isinstance(prompt, BoundedPattern):
                 new_pattern = re.compile(
-                    prompt.pattern.pattern + b"$", prompt.pattern.flags
+                    b"(?:" + prompt.pattern.pattern + b")\\Z", prompt.pattern.flags
                 )
                 prompt = BoundedPattern(new_pattern)
 
